@@ -182,7 +182,7 @@ func runFlowReplay(fr *flowReplay) (kind, what string) {
 	return "", ""
 }
 
-// installElements writes <dir>/ipfix.elements = shipped file + synthetic enterprise elements and
+// installElements writes <dir>/ipfix.elements = shipped file + synthetic elements (enterprise and IANA space) and
 // loads it with the real loader. Returns a restore function.
 func installElements(run *mon.Run) func() {
 	shipped, err := os.ReadFile(filepath.Join(mon.RepoDir(), "scripts", "ipfix.elements"))
@@ -192,7 +192,7 @@ func installElements(run *mon.Run) func() {
 	}
 	dir := filepath.Join(os.Getenv("VERIF_RUN"), "elements")
 	os.MkdirAll(dir, 0o755)
-	content := append(append([]byte{}, shipped...), wire.ElementsFile(wire.SyntheticElems())...)
+	content := wire.ElementsFileExtending(shipped, wire.SyntheticElems())
 	os.WriteFile(filepath.Join(dir, "ipfix.elements"), content, 0o644)
 	orig := ipfix.InfoModel
 	if err := ipfix.LoadExtElements(dir); err != nil {
@@ -361,7 +361,14 @@ func flowMain(args mon.Args, prop, proto string) {
 	restore := installElements(run)
 	all := append(append([]wire.Elem{}, snap...), wire.SyntheticElems()...)
 	if proto == "nf9" {
-		all = pen0
+		// v9 field types carry no enterprise number: the IANA-space synthetic elements (known only once the file
+		// is installed) are what tells a decoder that looks at the installed model from one that does not
+		all = append([]wire.Elem{}, pen0...)
+		for _, e := range wire.SyntheticElems() {
+			if e.PEN == 0 {
+				all = append(all, e)
+			}
+		}
 	}
 	phase(true, all, n-n/2, "B")
 	restore()
@@ -380,7 +387,7 @@ func flowMain(args mon.Args, prop, proto string) {
 		}
 	}
 	run.Set("types_swept", typesSeen)
-	run.SetRule("model → independent encoder (wire/) → real Decode on a fresh cache → field-by-field comparison (id, enterprise number, Go type and value) with the snapshot's type table. Sweep: every element × every legal fixed length (1..size; 9 lengths and the varlen marker for string/octetArray) × boundary contents, complete. Random: exporter histories with 1-3 templates (plain/options, reduced sizes, varlen 1- and 3-octet prefixes, enterprise elements once the elements file is installed), 1-4 data sets, 1-40 records, legal padding; a third of the sweep pairs and a quarter of the histories save the cache and load it back (Dump + GetCache, a collector restart) between two datagrams; distinct = structural descriptor (field types/lengths/options split/record count/padding), non-trivial = at least one data record compared")
+	run.SetRule("model → independent encoder (wire/) → real Decode on a fresh cache → field-by-field comparison (id, enterprise number, Go type and value) with the snapshot's type table. Sweep: every element × every legal fixed length (1..size; 9 lengths and the varlen marker for string/octetArray) × boundary contents, complete. Random: exporter histories with 1-3 templates (plain/options, reduced sizes, varlen 1- and 3-octet prefixes, enterprise elements and IANA-space elements that only the installed file defines, once the elements file is installed), 1-4 data sets, 1-40 records, legal padding; a third of the sweep pairs and a quarter of the histories save the cache and load it back (Dump + GetCache, a collector restart) between two datagrams; distinct = structural descriptor (field types/lengths/options split/record count/padding), non-trivial = at least one data record compared")
 	run.Assume("well-formedness contract of DESIGN.md Appendix A (element id 0, template withdrawal, RFC 6313 list internals not generated)")
 	run.Assume("fixtures/iana_ipfix_snapshot.tsv is the reference type table (C20 ties it to both in-repo tables)")
 	run.Finish()
